@@ -78,10 +78,26 @@ func dump(out map[string]string, path string, v reflect.Value, depth int) {
 			dump(out, path+"."+f.Name, v.Field(i), depth+1)
 		}
 	case reflect.Map:
-		out[path+"#len"] = fmt.Sprint(v.Len())
+		// a zero amount / empty list stored under a key is the same observable
+		// state as the key being absent (lookups default to it): such entries
+		// are skipped (set-like maps with struct{} values are not affected)
+		n := 0
 		for _, k := range v.MapKeys() {
-			dump(out, path+"["+keyString(k)+"]", v.MapIndex(k), depth+1)
+			e := v.MapIndex(k)
+			switch e.Kind() {
+			case reflect.Int64, reflect.Int, reflect.Uint32, reflect.Uint64:
+				if e.IsZero() {
+					continue
+				}
+			case reflect.Slice, reflect.Map:
+				if e.Len() == 0 {
+					continue
+				}
+			}
+			n++
+			dump(out, path+"["+keyString(k)+"]", e, depth+1)
 		}
+		out[path+"#len"] = fmt.Sprint(n)
 	case reflect.Slice, reflect.Array:
 		if v.Type().Elem().Kind() == reflect.Uint8 {
 			b := make([]byte, v.Len())
@@ -332,6 +348,7 @@ type gen struct {
 	scripted      bool
 	modeSwitch    bool // RevertToPOW / RevertToDPOS transactions (oracle only, not in the Coq model)
 	illegal       bool // illegal-proposal evidence against active producers (oracle only)
+	v2            bool // stake / Voting payload (delegate and DPoS v2 votes) / v2 producers (oracle only)
 	unmodelled    bool
 }
 
@@ -367,6 +384,9 @@ func (g *gen) block(height uint32) *blockd {
 		if g.illegal && g.rng.Chance(8) {
 			kind = 10
 		}
+		if g.v2 && g.rng.Chance(30) {
+			kind = 11 + g.rng.Intn(3)
+		}
 		if g.scripted {
 			kind, i = g.force[k][0], g.force[k][1]
 		}
@@ -376,7 +396,12 @@ func (g *gen) block(height uint32) *blockd {
 			if !exists && !used[i] {
 				g.nick++
 				d := &txd{Kind: "register", P: i, Nick: fmt.Sprintf("n%d", g.nick), Amount: int64(5000+g.rng.Intn(3)) * 1e8}
-				d.tx = mk(0, common2.RegisterProducer, &payload.ProducerInfo{OwnerKey: keys[i], NodePublicKey: keys[i], NickName: d.Nick},
+				stakeUntil := uint32(0)
+				if g.v2 && g.rng.Chance(50) {
+					stakeUntil = height + uint32(g.rng.Range(6, 40))
+					g.unmodelled = true
+				}
+				d.tx = mk(0, common2.RegisterProducer, &payload.ProducerInfo{OwnerKey: keys[i], NodePublicKey: keys[i], NickName: d.Nick, StakeUntil: stakeUntil},
 					nil, []*common2.Output{{ProgramHash: *depositHash(keys[i]), Value: common.Fixed64(d.Amount)}}, nil)
 				op := common2.NewOutPoint(d.tx.Hash(), 0)
 				g.deposits[i] = append(g.deposits[i], op.ReferKey())
@@ -465,6 +490,53 @@ func (g *gen) block(height uint32) *blockd {
 				b.Txs = append(b.Txs, d)
 				used[i] = true
 			}
+		case 11: // stake
+			voter := keys[g.rng.Intn(3)]
+			pk, _ := crypto.DecodePoint(voter)
+			code, _ := contract.CreateStandardRedeemScript(pk)
+			ct, _ := contract.CreateStakeContractByCode(code)
+			d := &txd{Kind: "stake", P: -1, Amount: int64(g.rng.Range(1, 20)) * 1e8}
+			d.tx = mk(common2.TxVersion09, common2.ExchangeVotes, &payload.ExchangeVotes{}, nil,
+				[]*common2.Output{{Value: common.Fixed64(d.Amount), ProgramHash: *ct.ToProgramHash(), Type: common2.OTStake,
+					Payload: &outputpayload.ExchangeVotesOutput{StakeAddress: *ct.ToProgramHash()}}}, nil)
+			b.Txs = append(b.Txs, d)
+			g.unmodelled = true
+		case 12, 13: // Voting payload: delegate (12) or DPoS v2 votes (13)
+			vi := g.rng.Intn(3)
+			if used[100+vi] {
+				break
+			}
+			pk, _ := crypto.DecodePoint(keys[vi])
+			code, _ := contract.CreateStandardRedeemScript(pk)
+			var infos []payload.VotesWithLockTime
+			for j := range keys {
+				e, s2, pp := g.producerState(j)
+				if !e || !(s2 == state.Active || s2 == state.Pending) || !g.rng.Chance(50) {
+					continue
+				}
+				if kind == 13 && pp.Info().StakeUntil == 0 {
+					continue
+				}
+				lock := uint32(0)
+				if kind == 13 {
+					lock = height + uint32(g.rng.Range(2, 9))
+				}
+				infos = append(infos, payload.VotesWithLockTime{Candidate: keys[j], Votes: common.Fixed64(g.rng.Range(1, 9)), LockTime: lock})
+			}
+			if len(infos) == 0 {
+				break
+			}
+			vt := outputpayload.Delegate
+			name := "voting-delegate"
+			if kind == 13 {
+				vt, name = outputpayload.DposV2, "voting-dposv2"
+			}
+			d := &txd{Kind: name, P: vi}
+			d.tx = mk(common2.TxVersion09, common2.Voting, &payload.Voting{Contents: []payload.VotesContent{{VoteType: vt, VotesInfo: infos}}},
+				nil, nil, []*program.Program{{Code: code}})
+			b.Txs = append(b.Txs, d)
+			used[100+vi] = true
+			g.unmodelled = true
 		case 10:
 			if exists && !used[i] && st == state.Active {
 				d := &txd{Kind: "illegal-proposal-evidence", P: i}
@@ -682,7 +754,7 @@ func main() {
 		}
 		a := newInst(c)
 		g := &gen{rng: rng, a: a, deposits: map[int][]string{}, allowConflict: rng.Chance(15) || sc != nil, refIDs: map[string]int{}, nickIDs: map[string]int{},
-			scripted: sc != nil, modeSwitch: sc == nil && c.LihStart >= 0 && rng.Chance(50), illegal: sc == nil && rng.Chance(25)}
+			scripted: sc != nil, modeSwitch: sc == nil && c.LihStart >= 0 && rng.Chance(50), illegal: sc == nil && rng.Chance(25), v2: sc == nil && rng.Chance(25)}
 		start := a.abt.ChainParams.VoteStartHeight
 		var blocks []*blockd
 		snaps := []snap{takeSnap(a.abt)} // snaps[i] = after i blocks
